@@ -459,6 +459,21 @@ func (g *Gen) bigVecMerge() {
 	cfg.vecOne, cfg.vecAll = true, true
 	cfg.vecOptOverride = []string{"memory-efficient", "latency", "recall"}[(g.stats["vec.bigmerge"]/3)%3]
 	b := g.randBatch(g.fresh("b"), cfg)
+	if g.stats["vec.bigmerge"]%2 == 1 {
+		// every second big vector merge is over an inner-product field with vectors of all lengths
+		// (scores are inner products of the vectors as they were indexed, not of normalised ones)
+		for d := range b.Docs {
+			for k := range b.Docs[d].Fields {
+				if f := &b.Docs[d].Fields[k]; f.Kind == "vec" {
+					f.Metric = "dot_product"
+					for x := range f.Vec {
+						f.Vec[x] *= 1 + d%7
+					}
+				}
+			}
+		}
+		g.st("vec.bigmerge.dotproduct")
+	}
 	g.emitBatch(b)
 	s := g.fresh("s")
 	g.emit("build %s %s", s, b.Name)
